@@ -508,6 +508,22 @@ def gen_parse_line(rng):
     return b"".join(rng.choice(alphabet) for _ in range(n))
 
 
+def nontrivial(kind, ln, answer):
+    """csv / xrff / var: the import succeeded with at least one example and two columns;
+    parse: the text has a quote; sniff: the file has at least two lines."""
+    t = ln.split()
+    if kind in ("csv", "xrff"):
+        d = parse_dump(answer) if answer.startswith("ok") else None
+        return d is not None and len(d["examples"]) >= 1 and len(d["cols"]) >= 2
+    if kind == "var":
+        return answer.startswith("ok V") and answer.split()[2] != "0"
+    if kind == "parse":
+        return "22" in [t[4][i:i + 2] for i in range(0, len(t[4]), 2)] if t[4] != "-" else False
+    if kind == "sniff":
+        return unhx(t[1]).count(b"\n") >= 2
+    return True
+
+
 def run(chk, replay=None):
     rng = C.SplitMix(chk.seed)
     quick = chk.tier == "quick"
@@ -600,7 +616,7 @@ def run(chk, replay=None):
     ndis = 0
     for i, (kind, ln, mln, exp, info) in enumerate(cases):
         a = cpp[i] if i < len(cpp) else "skipped"
-        chk.seen(ln)
+        chk.seen(ln, nontrivial=nontrivial(kind, ln, a))
         chk.count("kind:" + kind)
         chk.count("cpp:" + (a.split()[0] if a.split() else "empty"))
         tags = {"kind": kind}
@@ -609,8 +625,10 @@ def run(chk, replay=None):
             rep["model_line"] = mln
         if a.startswith("died") or a == "skipped":
             se = [d for d in deaths if d[0] == i]
-            chk.violation("import of a well-formed table aborts under the sanitizers: %s\n%s"
-                          % (ln[:200], se[0][2][-1500:] if se else ""), rep, tags=tags)
+            chk.violation("%s aborts under the sanitizers: %s\n%s"
+                          % ("evaluating a variable of setup_terminals on an example" if kind == "var"
+                             else "import of a well-formed table", ln[:200], se[0][2][-1500:] if se else ""),
+                          rep, tags=tags)
             continue
         # 1. the table oracle (independent of Lean)
         if isinstance(exp, dict):
@@ -691,8 +709,10 @@ def run(chk, replay=None):
         checker_cmd="lake build Vita.C09.Props c09_driver && lake env lean <#print axioms for every theorem>",
         rule="generated rectangular tables (1-60 rows, 1-12 columns, numeric/text/mixed columns, 6 delimiters, "
              "header on/off, every output index and none, random quoting, CR LF, blank lines, filter) as CSV and "
-             "XRFF, sniffer inputs, raw parser lines; distinct = distinct request lines; each is compared with "
-             "the table (oracle) and with the Lean model",
+             "XRFF, sniffer inputs, raw parser lines, variables of setup_terminals evaluated on the examples; "
+             "each is compared with the table (oracle) and with the Lean model; distinct_nontrivial = distinct "
+             "request lines whose import succeeded with >= 1 example and >= 2 columns (csv/xrff/var), whose "
+             "text has a quote (parse), whose file has >= 2 lines (sniff)",
         trusted=["Lean 4.33 kernel", "hand-written model Vita/C09/{Csv,Model}.lean (tied by the differential run)",
                  "harness/c09_read.cc + checks/c09.py (generator, table oracle, canonical dumps)",
                  "strtod/std::stod/std::stoi (uninterpreted in the model, values supplied by the harness)",
